@@ -147,6 +147,9 @@ fixed("C09", "fdb06df", "KernelNormalizer().fit(K_14).fit(K_9) raised a feature-
 # ------------------------------------------------------------------ C08
 fixed("C08", "d44f50a", "CUR / PCov-CUR warm start on data of scale >~ 1e3 re-orthogonalised by round-off residuals (absolute tolerance): X_current_ off by up to 66 %, warm-started selection differs from the cold one at scale 1e6")
 
+# ------------------------------------------------------------------ C15
+fixed("C15", "d67ecc1", "periodic_pairwise_euclidean_distances(list-of-lists, cell_length=...) raised AttributeError: the dimension check read X.shape before the documented array-like input was validated")
+
 if __name__ == "__main__":
     out = {
         "comment": "Genuine defects of scikit-matter found by the monitors. status=known: recorded, not repaired, keyed by "
